@@ -27,6 +27,19 @@ func init() {
 			}
 			return VL(out...)
 		}
+		// the tracker must not modify the descriptors it is handed: snapshot every getter the model reads
+		views := make([]string, len(pool))
+		for i := range pool {
+			views[i] = descView(pool[i])
+		}
+		poolChanged := func() int64 {
+			for i := range pool {
+				if descView(pool[i]) != views[i] {
+					return 1
+				}
+			}
+			return 0
+		}
 		st := scte35.NewState()
 		openObs := func() (v Val, panicked bool) {
 			defer func() {
@@ -72,7 +85,7 @@ func init() {
 				code = errCode(err)
 			}
 			ov, op := openObs()
-			out = append(out, VL(ids(closed), VI(int64(code)), ov))
+			out = append(out, VL(ids(closed), VI(int64(code)), ov, VI(poolChanged())))
 			if op {
 				break
 			}
